@@ -259,7 +259,7 @@ def canon_graph(nodes, D=(), B=(), U=(), C=()):
 # ----------------------------------------------------------------------------- labels
 class Labels:
     """bijection int index <-> python label for one label family"""
-    FAMILIES = ("int", "bigint", "str", "tuple", "frozenset", "falsy")
+    FAMILIES = ("int", "bigint", "str", "tuple", "frozenset", "falsy", "nested", "lookalike")
 
     def __init__(self, family="int", salt=0):
         self.family = family
@@ -282,6 +282,18 @@ class Labels:
             # labels whose truth value is False (0, (), "", frozenset()) next to multiples of 8 (which share
             # hash buckets in small sets): a node is a node whatever bool(label) says
             lab = {3: 0, 4: (), 5: "".join([]), 6: frozenset()}.get(i, 8 * (i + 1))
+        elif f == "nested":
+            # labels that CONTAIN other labels of the same graph (a tuple / frozenset of nodes is itself a node):
+            # networkx treats a hashable container that is a node as that node, code that does set(x) / "for n in
+            # x" on an argument does not
+            p, q = "".join(["p", "0"]), "".join(["q", "1"])
+            lab = {0: p, 1: q, 2: (p, q), 3: frozenset([p, q]), 4: (q, p), 5: frozenset([p]), 6: (p,), 7: (q,),
+                   8: frozenset([q])}.get(i, (p, q, i))
+        elif f == "lookalike":
+            # different labels of different types that print alike (str / repr collide, == and hash do not):
+            # keys built from str(label) or repr(label) confuse them, sorted() over them is not defined
+            lab = {0: 1, 1: "".join(["1"]), 2: (0, 1), 3: "".join(["(0, ", "1)"]), 4: frozenset([1]),
+                   5: "".join(["frozenset(", "{1})"]), 6: "".join([" "]), 7: -1, 8: "".join(["-", "1"])}.get(i, (i, str(i)))
         elif f == "auglike":
             # (not in FAMILIES: used by C20 only) ordinary nodes named like the library's generated
             # intervention / domain nodes ('F', k) / ('S', k)
